@@ -68,6 +68,7 @@ def wd_env():
     e["LSmall"] = T_list(In5)
     e["LEnum3"] = T_list(T_enum(3))
     e["LCh"] = T_list(T_cho([("a", In5), ("b", T_utf8()), ("c", T_null())]))
+    e["LChN"] = T_list(T_cho([("a", In5), ("c", T_null()), ("d", T_bool())]))        # (elements without blocks of their own: the model tie)
     e["LInner"] = T_list(T_seq([("n", In5, False), ("s", T_utf8(), True)]), set_=True)
     e["LFixN"] = T_list(T_utf8(), size=(3, 3, False))
     e["LRange"] = T_list(T_utf8(), size=(2, 5, False))
@@ -528,12 +529,13 @@ def post(run, results, model):
                 if d.get("rc") == "FAIL" and h["syn"] in ("uper", "oer") and h["kind"] == "w-honest-free" and t in LIST_MODEL_TYPES \
                         and h.get("honest", "").startswith("count="):
                     n = int(h["honest"].split("=")[1])
-                    lines.append("c14wlist correct %s %d bomb" % (h["syn"], n))
+                    # UPER refuses at the first element once more than 200 are announced; OER after the 202nd was appended
+                    lines.append("c14wlist correct %d bomb" % (0 if h["syn"] == "uper" else 201))
                     meta.append(("list", m, h, d))
-                if d.get("rc") == "FAIL" and h["syn"] in ("uper", "oer") and h["kind"] == "w-refuse-free" and t == "LCh" and lab.startswith("choice:index"):
+                if d.get("rc") == "FAIL" and h["syn"] in ("uper", "oer") and h["kind"] == "w-refuse-free" and t == "LChN" and lab.startswith("choice:index"):
                     path = list(h["lie"])[0]
                     if len(path) == 1:
-                        lines.append("c14wlist correct %s %d decfail" % (h["syn"], path[0]))
+                        lines.append("c14wlist correct %d decfail" % path[0])
                         meta.append(("list", m, h, d))
             if m["layer"] == "EB":
                 for i, d in enumerate(p[:-1]):
@@ -574,9 +576,9 @@ def post(run, results, model):
             okC = d.get("ret") != "-1"
             okM = f.get("result") == "buffer"
             # live across the op (the harness has released a returned buffer by then) against the model's ledger after the caller's free
-            bad = okC != okM or d.get("a") != f.get("allocs") or (okC and d.get("bs") != f.get("bs")) or f.get("violation") != "none" or str(d.get("_delta")) != f.get("leak")
+            bad = okC != okM or str(int(d.get("a", "0")) - int(d.get("ca", "0"))) != f.get("allocs") or (okC and d.get("bs") != f.get("bs")) or f.get("violation") != "none" or str(d.get("_delta")) != f.get("leak")
             if bad:
                 run.violation("correspondence:HeapW.dyn", {
-                    "what": "uper_encode_to_new_buffer: the C reports success=%s with %s allocations and a result block of %s bytes; the model of the accumulating callback + wrapper over the chunk sizes "
+                    "what": "uper_encode_to_new_buffer: the C reports success=%s with %s allocations (the encoder's own, counted on uper_encode() with a plain callback, included) and a result block of %s bytes; the model of the accumulating callback + wrapper over the chunk sizes "
                             "uper_encode() produces for this value (%s) gives result=%s allocs=%s block=%s ledger=%s; blocks left behind: C %s, model %s" % (okC, d.get("a"), d.get("bs"), d.get("cbs"), f.get("result"), f.get("allocs"), f.get("bs"), f.get("violation"), d.get("_delta"), f.get("leak")),
                     "module": m["text"], "type": h["case"]["tn"], "command_line": cl[:3000], "model_line": line, "model": o}, no_input=True)
